@@ -68,7 +68,9 @@ def groups(tier, seed):
             for ai, aggs in enumerate(AGGS):
                 for wi in range(len(WHERES)):
                     for aggfirst in (False, True):
-                        for ob in orders(kl, aggs, 0, aggfirst):
+                        for oi, ob in enumerate(orders(kl, aggs, 0, aggfirst)):
+                            if tier == 'quick' and aggfirst and oi not in (0, 5, 6):
+                                continue
                             cases.append({'aggs': aggs, 'where': wi, 'aggfirst': aggfirst, 'order': ob})
             yield {'tree': tname, 'keys': kl, 'cases': cases}
 
